@@ -69,3 +69,10 @@ Print Assumptions feature_props_spec.
 Example streams_example : streams [0;0;0;1]%nat [0;1;2;3]%nat None 0 = [[3;1;0]; [2;0]; [0]; [0;0]]%nat
   /\ cut [1;2;3;4;5]%nat 2 = [[1;2;3]; [3;4;5]]%nat.
 Proof. vm_compute. auto. Qed.
+
+(* core.flwdir_tuples (behind FlwdirRaster.vectorize) regenerated from the source IS the model *)
+From PF Require Import GenFlwdirTuplesEq.
+From PFG Require Import GenLoops.
+Theorem gen_flwdir_tuples_eq : forall ds mask, gen_flwdir_tuples ds mask = flwdir_tuples ds mask.
+Proof. exact GenFlwdirTuplesEq.gen_flwdir_tuples_eq. Qed.
+Print Assumptions gen_flwdir_tuples_eq.
